@@ -39,11 +39,11 @@ func DefaultGen() GenCfg {
 }
 
 var comPool = []string{"CHF", "USD", "EUR", "AAPL", "BTC", "GLD", "X1", "Ærø", "usd"} // "usd" and "USD" are different commodities
-var segPool = []string{"Bank", "Cash", "Broker", "Checking", "Savings", "US", "CH", "Food", "Rent", "Tax", "Salary", "Misc", "A1", "B2", "bank", "k2", "A01", "Bank2", "Übrig", "日本"} // "A1"/"A01" differ in a leading zero only; "Bank" is a string prefix of "Bank2"
+var segPool = []string{"Bank", "Cash", "Broker", "Checking", "Savings", "US", "CH", "Food", "Rent", "Tax", "Salary", "Misc", "A1", "B2", "bank", "k2", "A01", "Bank2", "Übrig", "日本", "Сбережения", "Ärztekostenübernahme"} // "A1"/"A01" differ in a leading zero only; "Bank" is a string prefix of "Bank2"
 var roots = []string{"Assets", "Liabilities", "Equity", "Income", "Expenses"}
 var descPool = []string{"Groceries", "Salary", "Rent", "Transfer", "Buy", "Sell", "Fee", "Dividend", "Tax", "Gift", "Coffee & cake", "Zürich trip", " Padded", "Trailing ", "two  spaces", "\n  Dinner on the next line", "30% off", "discount 100%", "x", ""}
 
-var anchors = []Day{D(2019, 12, 20), D(2020, 2, 20), D(2021, 6, 25), D(2022, 12, 28), D(2023, 9, 30), D(2024, 2, 27)}
+var anchors = []Day{D(2019, 12, 20), D(2020, 2, 20), D(2021, 6, 25), D(2022, 12, 28), D(2023, 9, 30), D(2024, 2, 27), D(2020, 12, 24), D(2024, 12, 26)} // the last two: the turn of a leap year
 
 // Gen builds a journal that RefCheck accepts.
 func Gen(r *simrt.Rand, c GenCfg) *Journal {
@@ -124,9 +124,9 @@ func gen1(r *simrt.Rand, c GenCfg) *Journal {
 		}
 		segs := []string{root}
 		for k := 0; k < depth; k++ {
-			s := segPool[r.Intn(len(segPool)-2)]
+			s := segPool[r.Intn(len(segPool)-4)]
 			if r.P(c.PUnicode) {
-				s = segPool[len(segPool)-1-r.Intn(2)]
+				s = segPool[len(segPool)-1-r.Intn(4)] // non-ASCII: two short ones, a Cyrillic one, a long one with umlauts
 			}
 			segs = append(segs, s)
 		}
@@ -137,7 +137,7 @@ func gen1(r *simrt.Rand, c GenCfg) *Journal {
 				k := r.Range(1, len(base))
 				segs = append(append([]string{}, base[:k]...), segs[len(segs)-1])
 				if r.P(0.3) {
-					segs = append(segs, segPool[r.Intn(len(segPool)-2)])
+					segs = append(segs, segPool[r.Intn(len(segPool)-4)])
 				}
 			}
 		}
@@ -527,6 +527,9 @@ type Layout struct {
 	// can end in the middle of an include directive's line).
 	IncludesLast   bool
 	NoFinalNewline bool
+	// UncleanMain spells the root file's path with a redundant element (1: "/./", 2: "/zz/../"),
+	// as a user who types ./journal.knut does.
+	UncleanMain int `json:",omitempty"`
 	// Diamond lists additional include edges (from file, to file): the file is then
 	// reached along two paths and loaded twice, which is legal as long as it holds
 	// only directives that may be repeated (prices, assertions).
@@ -642,6 +645,13 @@ func RandLayout(r *simrt.Rand, j *Journal, maxFiles int) *Layout {
 	return l
 }
 
+// SpellMainUncleanly makes the root path carry a redundant element in 15% of the cases.
+func (l *Layout) SpellMainUncleanly(r *simrt.Rand) {
+	if r.P(0.15) {
+		l.UncleanMain = r.Range(1, 2)
+	}
+}
+
 // WideLayout is an include tree that is wide and nested at once: the root
 // includes 8-14 files, each of which includes one or two files of its own.
 func WideLayout(r *simrt.Rand, j *Journal) *Layout {
@@ -740,7 +750,15 @@ func (l *Layout) Files(j *Journal) map[string]string {
 	return out
 }
 
-func (l *Layout) Main() string { return path.Join(l.Root, l.Names[0]) }
+func (l *Layout) Main() string {
+	switch l.UncleanMain {
+	case 1:
+		return l.Root + "/./" + l.Names[0]
+	case 2:
+		return l.Root + "/zz/../" + l.Names[0]
+	}
+	return path.Join(l.Root, l.Names[0])
+}
 
 func relPath(fromDir, to string) string {
 	f := strings.Split(path.Clean(fromDir), "/")
